@@ -3,11 +3,13 @@ package server
 import (
 	"bytes"
 	"encoding/json"
+	"math"
 	"strconv"
 	"strings"
 	"time"
 
 	"github.com/tidwall/geojson"
+	"github.com/tidwall/geojson/geometry"
 	"github.com/tidwall/gjson"
 	"github.com/tidwall/resp"
 	"github.com/tidwall/sjson"
@@ -119,8 +121,22 @@ func isJSONNumber(data string) bool {
 	return i == len(data)
 }
 
+// finiteRect is the rectangle of an object for output and for finding the
+// fences it may touch. The polygon of a circle that touches a pole has NaN
+// vertices and so has its rectangle: the box of the disc stands in then.
+func finiteRect(o geojson.Object) geometry.Rect {
+	if o == nil {
+		return geometry.Rect{}
+	}
+	r := o.Rect()
+	if math.IsNaN(r.Min.X + r.Min.Y + r.Max.X + r.Max.Y) {
+		return collection.SearchRect(o)
+	}
+	return r
+}
+
 func appendJSONSimpleBounds(dst []byte, o geojson.Object) []byte {
-	bbox := o.Rect()
+	bbox := finiteRect(o)
 	dst = append(dst, `{"sw":{"lat":`...)
 	dst = strconv.AppendFloat(dst, bbox.Min.Y, 'f', -1, 64)
 	dst = append(dst, `,"lon":`...)
